@@ -54,7 +54,7 @@ HEADERS = {
                permids='1 2 0', nvars=3,
                info={'a': 'a', 'b': 'b', 'c': 'c'}, order=['c', 'a', 'b']),
 }
-ROOTS = {1: [[5], [-5]], 2: [[5, -4], [-5, 5]]}
+ROOTS = {1: [[5], [-5], [-1], [1]], 2: [[5, -4], [-5, 5], [-5, -1], [1, 4]]}
 
 
 def header_text(h, nnodes, roots):
@@ -129,7 +129,8 @@ class Harness:
             x = VAR[lev[j]]
             den.append((x & den_of(thens[j], j)) | (~x & den_of(elses[j], j)))
         for r in roots:
-            c.assume(z3.Or([ids[j] == abs(r) for j in range(M)]))
+            if abs(r) != 1:          # +-1: the constant (the file's terminal row)
+                c.assume(z3.Or([ids[j] == abs(r) for j in range(M)]))
         wants = [den_of(z3.IntVal(r), M) for r in roots]
 
         def extract(model):
